@@ -184,21 +184,29 @@ impl FatVolume {
                 // FAT16 volumes don't have an info sector
             }
             FatSpecificInfo::Fat32(fat32_info) => {
-                if self.free_clusters_count.is_none() && self.next_free_cluster.is_none() {
-                    return Ok(());
-                }
+                // A hint is only worth storing if it names a cluster of this
+                // volume; anything else is stored as "unknown", also when the
+                // bad value was found on the medium at mount.
+                let first_invalid = self.cluster_count.saturating_add(RESERVED_ENTRIES);
+                let next_free = match self.next_free_cluster {
+                    Some(c) if c.0 >= RESERVED_ENTRIES && c.0 < first_invalid => c.0,
+                    _ => 0xFFFF_FFFF,
+                };
                 trace!("Reading info sector");
                 let block = block_cache
                     .read_mut(fat32_info.info_location)
                     .map_err(Error::DeviceError)?;
+                let mut record = [0u8; 8];
+                record.copy_from_slice(&block[488..496]);
                 if let Some(count) = self.free_clusters_count {
-                    block[488..492].copy_from_slice(&count.to_le_bytes());
+                    record[0..4].copy_from_slice(&count.to_le_bytes());
                 }
-                if let Some(next_free_cluster) = self.next_free_cluster {
-                    block[492..496].copy_from_slice(&next_free_cluster.0.to_le_bytes());
+                record[4..8].copy_from_slice(&next_free.to_le_bytes());
+                if block[488..496] != record {
+                    block[488..496].copy_from_slice(&record);
+                    trace!("Writing info sector");
+                    block_cache.write_back()?;
                 }
-                trace!("Writing info sector");
-                block_cache.write_back()?;
             }
         }
         Ok(())
